@@ -699,6 +699,7 @@ pub fn check_case(ci: usize, class: usize, sub: u64, seed: u64, confs: &[Config]
 }
 
 pub fn run(cfg: &Cfg) -> Report {
+    crate::tls::prewarm(true);
     let mut total = Report::new();
     // thorough: every configuration against eight different servers (challenge, target info, CredSSP version)
     let passes: u64 = if cfg.quick() { 1 } else { 8 };
